@@ -276,11 +276,19 @@ def daily(ck, S, DF, RID="C09-O5"):
     ck.require(len(rot) == 1, "checkDailyRotation calls rotate() %d times" % len(rot))
     rs_ = g.site_of(rot[0])
 
+    def is_record_date(x):
+        """the date of the record: the helper's date parameter, or (when the check is folded into its caller) a local computed from lmsg.time().date()"""
+        if is_ref_to(x, md):
+            return True
+        v = skip_copies(deref_local(cd, skip_copies(x))) if isinstance(x, dict) else None
+        return isinstance(v, dict) and any(is_call(y, LM + "::time") for y in walk(v)) and any(is_call(y, ("QDateTime::date",)) for y in walk(v))
+
     def ne(n):
         if n.get("k") == "call" and n.get("op") in ("!=", "==") and len(n.get("args", [])) == 2:
             a, b = n["args"]
-            return (is_ref_to(a, md) and is_this_field(b, DF)) or (is_ref_to(b, md) and is_this_field(a, DF))
+            return (is_record_date(a) and is_this_field(b, DF)) or (is_record_date(b) and is_this_field(a, DF))
         return False
+    daily_opt = S.option_pred("RotationDaily", cd)
 
     def sizecmp(n):
         return n.get("k") == "binop" and n.get("op") in (">", ">=", "!=", "==", "<", "<=") and is_call(n.get("lhs"), ("QFileDevice::size", "QFile::size", "QIODevice::size")) and S.is_active_file(skip_copies(n["lhs"]).get("obj")) and const_int(n.get("rhs")) is not None
@@ -293,10 +301,20 @@ def daily(ck, S, DF, RID="C09-O5"):
                 if sizecmp(n):
                     k = const_int(n["rhs"])
                     return bool({">": size > k, ">=": size >= k, "!=": size != k, "==": size == k, "<": size < k, "<=": size <= k}[n["op"]])
+                if daily_opt(n):
+                    return True
                 return None
             keep = g.projector(atom)
             table[(differs, size)] = (rs_ in g.live(keep), g.must_pass({rs_}, keep=keep))
     ok = all(table[(d, s)] == ((d and s > 0), (d and s > 0)) for d in (False, True) for s in (0, 1, 50))
+    if not ok:
+        # a condition on the way to rotate() that is none of (dates differ, file non-empty, daily option): the table is not a verdict then
+        from engine.cfg import eval_cond
+        at0 = lambda n: True if (ne(n) or sizecmp(n) or daily_opt(n)) else None
+        dom_conds = [n_["cond"] for n_ in cd.all_nodes() if n_.get("k") in ("if", "while", "cond") and isinstance(n_.get("cond"), dict) and
+                     g.site_of(n_["cond"]) is not None and g.can_reach(g.site_of(n_["cond"]), rs_)]
+        if any(eval_cond(c_, at0, cd) is None for c_ in dom_conds):
+            ok = None
     ck.ob(RID, sitestr(cd, rot[0]), ok, "daily rotation iff the record's date differs from the file's date and the file is non-empty (6/6 cases)" if ok else "daily rotation guard: %s" % table, key="checkDailyRotation|guard")
     # message date = lmsg.time().date()
     gi = S.g(ri)
